@@ -668,6 +668,17 @@ def terminate_run(idx):
     return run
 
 
+def info_run(idx, flavour):
+    """information requests (SIGUSR1) while a test is in the middle of its output: the snapshot shown in
+    the info response must not take anything away from what is captured for the attempt"""
+    run = fixed_run(idx, "info-" + flavour, {"chatty": [{
+        "stdout": {"seed": 91, "size": 5000, "ascii": True}, "stderr": hx(b"early-err\n"), "log_written": True,
+        "sleep": 1.4, "final_stdout": {"seed": 92, "size": 3000, "ascii": True}, "final_stderr": hx(b"late-err\n"),
+        "exit": 3}]}, flavour=flavour)
+    run["info"] = True
+    return run
+
+
 SCRIPT_OUT = bytes(range(256)) * 300 + b"tail"
 SCRIPT_ERR = b"script-err\n"
 SCRIPT_CODE = ("import os\n"
@@ -753,6 +764,16 @@ def kill_runs(start, r, thorough):
 
 def kill_signals(run):
     """SIGSTOP nextest as soon as the first logger has started, SIGCONT it well after the deadline"""
+    if run.get("info"):
+        seen = [None]
+
+        def after(dt):
+            def f(ctx):
+                if seen[0] is None and e2e.log_has("written", test="chatty")(ctx):
+                    seen[0] = time.monotonic()
+                return seen[0] is not None and time.monotonic() >= seen[0] + dt
+            return f
+        return [(after(0.3), signal.SIGUSR1), (after(0.7), signal.SIGUSR1)]
     if not run.get("stop"):
         return ()
     t = [None]
@@ -1131,6 +1152,8 @@ def run(tier, seed):
     runs.append(leak_run(len(runs)))
     runs.append(terminate_run(len(runs)))
     runs.append(script_run(len(runs)))
+    runs.append(info_run(len(runs), "mixed"))
+    runs.append(info_run(len(runs), "combined"))
     runs.extend(kill_runs(len(runs), r, thorough))
     plan = (["mixed"] * 8 + ["text"] * 8 + ["colour"] * 3 + ["combined"] * 3 + ["big"] * 2) if not thorough else \
            (["mixed"] * 100 + ["text"] * 120 + ["colour"] * 50 + ["combined"] * 50 + ["big"] * 24)
